@@ -1292,6 +1292,10 @@ func (p *PubSub) announceRetry(pid peer.ID, topic string, sub bool) {
 
 	retry := func() {
 		_, okSubs := p.mySubs[topic]
+		// subscriptions on a fanout-only topic are never announced
+		if t := p.myTopics[topic]; okSubs && t != nil && t.fanoutOnly {
+			okSubs = false
+		}
 		_, okRelays := p.myRelays[topic]
 
 		ok := okSubs || okRelays
